@@ -5,6 +5,7 @@ package main
 import (
 	"fmt"
 	"go/types"
+	"math"
 	"regexp"
 	"strings"
 
@@ -139,6 +140,19 @@ func init() {
 	}
 	shims["verifSameFloat"] = func(in *Interp, fr *frame, args []value) value {
 		return in.tb.Eq(args[0].(*Term), args[1].(*Term))
+	}
+	// verifSameShown(a, b, d): a and b are shown as the same text with d decimals: equal, or equal
+	// after scaling by 10^d and rounding to an integer (the model of fixed-precision rendering)
+	shims["verifSameShown"] = func(in *Interp, fr *frame, args []value) value {
+		a, b := args[0].(*Term), args[1].(*Term)
+		d := in.toInt(args[2], "decimals")
+		if a == b {
+			return in.tb.True
+		}
+		scale := in.tb.Float(math.Pow(10, float64(d)))
+		ra := in.tb.FRoundOp(OpFRound, in.tb.FMul(a, scale))
+		rb := in.tb.FRoundOp(OpFRound, in.tb.FMul(b, scale))
+		return in.tb.Or(in.tb.Eq(a, b), in.tb.Eq(ra, rb))
 	}
 	// verifNums: the rendered floating-point values inside a string, in order.
 	shims["verifNums"] = func(in *Interp, fr *frame, args []value) value {
